@@ -78,6 +78,10 @@ pub trait SimData: GD + HasHost + Clone {
     fn frames(&self) -> Vec<(usize, usize)>;
     /// symbol name as the store reports it
     fn symbol_name(&self, sym: u64) -> Option<String>;
+    /// Basic: retain_all_current_data + optimize(&[]); Simple has no compaction (no-op). false = refused
+    fn retain_and_optimize(&mut self) -> bool {
+        true
+    }
 }
 
 impl HasHost for SimpleW {
@@ -220,5 +224,10 @@ impl SimData for BasicW {
 
     fn symbol_name(&self, sym: u64) -> Option<String> {
         self.get_symbol_string(sym).ok().flatten()
+    }
+
+    fn retain_and_optimize(&mut self) -> bool {
+        self.retain_all_current_data();
+        matches!(crate::world::guarded(|| self.optimize(&[])), Ok(Ok(_)))
     }
 }
